@@ -76,7 +76,7 @@ class BoundedCtx:
         self.exhaustive = True
         self.contract_evals = 0
         self.notes: list[str] = []
-        self.deadline = time.time() + (25 if tier == 'quick' else 900)
+        self.deadline = time.time() + (25 if tier == "quick" else 480)
 
     @property
     def thorough(self) -> bool:
@@ -155,6 +155,50 @@ def _call_with_timeout(packed):
         return 'MEMORY: the real code exhausted the worker memory limit (6 GiB above its start) on this input (unbounded allocation)'
     finally:
         signal.setitimer(signal.ITIMER_REAL, 0)
+
+
+def _isolated_replay(replay_fn, model, name, cache, seconds: float = 90.0):
+    """Run a sidecar's native replay in a forked child: the changed code may loop or allocate without bound on the
+    witness (a model can ask for a 2**60-byte buffer), which must not take the checker down.  Wall-clock limit, a memory
+    cap of 6 GiB above the current size, result passed back as JSON.  Replays whose function ignores the model
+    (one shared native confirmation per run) are cached in the parent."""
+    import multiprocessing as mp
+    key = (id(replay_fn), json.dumps(model, sort_keys=True, default=repr) if not getattr(replay_fn, '__name__', '') == '_witness' else '')
+    if key in cache:
+        return cache[key]
+    ctx = mp.get_context('fork')
+    rd, wr = ctx.Pipe(duplex=False)
+
+    def child():
+        _worker_init()
+        try:
+            res = replay_fn(model, name)
+        except MemoryError:
+            res = {'failed': False, 'error': 'MemoryError while replaying the witness natively'}
+        except BaseException as e:      # noqa: B902
+            res = {'failed': False, 'error': f'{type(e).__name__}: {e}'}
+        try:
+            wr.send(json.dumps(res, default=repr))
+        finally:
+            wr.close()
+            os._exit(0)
+    proc = ctx.Process(target=child)
+    proc.start()
+    wr.close()
+    out = None
+    if rd.poll(seconds):
+        try:
+            out = json.loads(rd.recv())
+        except (EOFError, ValueError):
+            out = None
+    if out is None:
+        out = {'failed': False, 'error': f'native replay did not finish within {seconds} s (or died): the real code may not '
+                                         f'terminate on the witness'}
+    if proc.is_alive():
+        proc.kill()
+    proc.join(5)
+    cache[key] = out
+    return out
 
 
 def _worker_init():
@@ -289,6 +333,7 @@ def run_property(prop: str, tier: str, seed: int, repo: str, only: Optional[str]
     n_covered = sum(1 for _, r in all_results if r.kind == 'cover' and r.status == 'covered')
 
     setup_paths(repo)
+    replay_cache: dict = {}
     inconclusive_covers: list[str] = []
     for rep, r in all_results:
         if r.status in ('proved', 'covered'):
@@ -309,13 +354,7 @@ def run_property(prop: str, tier: str, seed: int, repo: str, only: Optional[str]
         replay_fn = getattr(c, 'replay_fn', None) if c else getattr(r, 'replay_fn', None)
         native = None
         if replay_fn is not None:
-            try:
-                # (time-limited: the changed code may not terminate on the witness)
-                native = _call_with_timeout((lambda _: replay_fn(r.model, norm_name(r.name)), None, 60.0))
-                if isinstance(native, str):
-                    native = {'failed': False, 'error': native}
-            except Exception as e:
-                native = {'failed': False, 'error': f'{type(e).__name__}: {e}'}
+            native = _isolated_replay(replay_fn, r.model, norm_name(r.name), replay_cache)
         failed = bool(native and native.get('failed'))
         key = 'obligation=' + norm_name(r.name)
         violations.append(Violation(prop, r.name, key,
